@@ -180,16 +180,24 @@ type faultSrc struct {
 	from   int
 	chunk  int
 	faults int
+	// number of stream bytes not yet delivered when the first fault was raised
+	leftAtFault int
 }
 
 func (s *faultSrc) Read(p []byte) (int, error) {
 	i := s.n
 	s.n++
 	if s.from >= 0 && i >= s.from {
+		if s.faults == 0 {
+			s.leftAtFault = len(s.data) - s.off
+		}
 		s.faults++
 		return 0, errInjected
 	}
 	if s.plan[i] == "err" {
+		if s.faults == 0 {
+			s.leftAtFault = len(s.data) - s.off
+		}
 		s.faults++
 		return 0, errInjected
 	}
@@ -217,7 +225,7 @@ type rfCase struct {
 	Kind    string `json:"kind"` // "err-once" | "data+err-once" | "persist" | "two-transient"
 	K       int    `json:"k"`
 	K2      int    `json:"k2,omitempty"`
-	Chunk   int    `json:"chunk"` // source serves at most this many bytes per call (multiple of 8; 0 = as asked)
+	Chunk   int    `json:"chunk"` // source serves at most this many bytes per call (0 = as asked); 13 and 1001 make the bitstream complete partial words with extra reads
 	RB      int    `json:"read_buf"`
 }
 
@@ -264,8 +272,13 @@ func runReaderFault(r rfCase) (fl *Fail, nt bool) {
 		if !bytes.Equal(res.Out, data) {
 			return failf(fmt.Sprintf("source-failure-became-clean-eof kind=%s jobs=%s", r.Kind, jc), "the source failed %d time(s); Read reported a clean end of stream after %d of %d bytes (%s)", src.faults, len(res.Out), len(data), r), true
 		}
+		if src.faults > 0 && r.Kind != "data+err-once" && src.leftAtFault > 0 {
+			// the source failed while bytes of the stream were still outstanding: the library had to call
+			// Read again to get them, so it saw the failure - and reported nothing
+			return failf(fmt.Sprintf("source-failure-never-reported kind=%s jobs=%s", r.Kind, jc), "the source failed %d time(s) with %d bytes of the stream still to come; every Read returned success and the data is complete - the failure was swallowed (%s)", src.faults, src.leftAtFault, r), true
+		}
 		if src.faults > 0 && r.Kind != "data+err-once" {
-			// the failure hit a call whose result was not needed (e.g. after the end marker was buffered): fine
+			// the failure hit a call whose result was not needed (after the last byte was delivered): fine
 			return nil, false
 		}
 	}
@@ -507,7 +520,7 @@ func init() {
 					b     uint
 					len   int
 					chunk int
-				}{{64 * 1024, 600000, 0}, {64 * 1024, 600000, 65536}, {1024, 9000, 1024}, {1024, 9000, 4096}} {
+				}{{64 * 1024, 600000, 0}, {64 * 1024, 600000, 65536}, {1024, 9000, 1024}, {1024, 9000, 4096}, {1024, 3000, 13}, {1024, 9000, 1001}} {
 					p := Params{"NONE", "NONE", cfg.b, 2, 32, -1, false, false}
 					// number of source calls in a fault-free run
 					data := shape("random", cfg.len)
@@ -521,7 +534,7 @@ func init() {
 							for _, kind := range []string{"err-once", "data+err-once", "persist"} {
 								emit(rfCase{P: p, Len: cfg.len, DecJobs: dj, Kind: kind, K: k, Chunk: cfg.chunk, RB: rb})
 							}
-							for k2 := k + 1; k2 < ncalls; k2++ {
+							for k2 := k + 1; k2 < ncalls && ncalls <= 40; k2++ {
 								emit(rfCase{P: p, Len: cfg.len, DecJobs: dj, Kind: "two-transient", K: k, K2: k2, Chunk: cfg.chunk, RB: rb})
 							}
 						}
